@@ -177,7 +177,17 @@ def standin_search(pid, root, tier):
     budget = '100000' if tier == 'quick' else '2000000'
     seed = os.environ.get('VERIF_SEED', '0')
     tried = []
+    # oracles that are exhaustive enumerations of stated program / document shapes run in full as bounded stand-ins on
+    # every check: searching them again (the generator only cycles through the same cases) adds nothing
+    try:
+        import config as _cfg
+        enumerated = {b['oracle'] for b in _cfg.PROPS.get(pid, {}).get('bounded_standins', [])}
+    except Exception:
+        enumerated = set()
     for o in ORACLES.get(pid, {}).get('*', []):
+        if o in enumerated:
+            tried.append((o, 'enumerated in full by the bounded stand-in'))
+            continue
         exe = build(root, crate_for(o))
         if not exe:
             tried.append((o, 'driver build failed'))
